@@ -27,6 +27,8 @@ verbatim Verus text that goes into the verus! block):
              external_body  emit with #[verifier::external_body] (body kept, not verified)
              nobody         emit as external_body with `unimplemented!()` body (callee outside Verus' reach)
              keepvis        do not force `pub`
+             sufficient     the contract is stronger than the property (structure of float code): a failure without a
+                            failing input of the statement-level oracle is reported as undecided, not as a violation
              noconst        R10: emit a `const fn` as plain `fn`
      ret <name>              name the return value
      <contract lines>        requires/ensures/decreases/... copied between signature and body
@@ -653,6 +655,10 @@ class Generator:
             "rewrites": sorted({e[3] for e in piece.edits if e[3].startswith("R") or e[3] in ("declared-rewrite", "nobody", "rename")}),
             "contract": contract.strip()[:2000],
         }
+        if opts.get("sufficient"):
+            # the contract is a SUFFICIENT condition for the property (e.g. an exact float expression where the property only
+            # asks for a few ulp): its failure alone is not a violation -- see `check`
+            entry["sufficient"] = True
         self.items.append(entry)
         if external:
             self.assumptions.append({"kind": "external_body", "name": label, "where": f"{rel}:{lno}",
